@@ -17,6 +17,10 @@ CLAIMED = {
    text="Lean theorem matP_rel (soundness of the sc/ec/smaller_found/break bookkeeping incl. psi borders): every cell of the pruned matrix over-estimates the recurrence and equals it when <= threshold; corollaries: below threshold = unbounded distance, above = infinity, never another number, use_pruning with any valid upper bound = pruning disabled incl. equality. Correspondence with thresholds placed around the true distance in both engines.",
    note="Trusted: as C01. Thresholds inside the rounding neighbourhood of the true distance are excluded (property). Validity of the Euclidean bound is C09.",
    technique="Lean 4 proof: loop invariant over the inner/outer DP loops (Dead/Rel relations) + differential correspondence", ref="§5 pruning lemma, §6 C03"),
+ "C04": dict(
+   text="Lean theorems: shape; every cell of the matrix equals the recurrence D (hence by C01 the optimum over partial paths) when its optimum is <= threshold and stays above it otherwise; out-of-band cells infinite; returned distance = distance-only routine; compact C layout: rows stay inside their row of the advertised buffer, indices injective, stored columns = left neighbour + Python band (all l1,l2,window); expansion reads each cell from its compact index. Correspondence: Python matrix vs model cell-exact (incl. -1 marking); C full, C compact + dtw_expand_wps, random slices via dtw_expand_wps_slice with red zones; dtw_wps_parts/loc/loc_columns/width/length enumerated completely for l<=9 (16 thorough).",
+   note="Trusted: as C01 + ctypes struct mirrors. Region-wise index arithmetic of the C kernel loops is tied through the exhaustive layout comparison and cell-wise matrix comparison, not proved line by line. -1 marking when no admissible end exists (distance inf) is treated as unspecified.",
+   technique="Lean 4 proof (refinement + omega layout arithmetic) + differential correspondence", ref="§6 C04"),
 }
 PENDING_REASON = "check under construction in this round (not yet registered); the technique applies, see DESIGN.md §6"
 
